@@ -3,7 +3,8 @@
 scratch worktree and records which violation classes caught it: mutants/RESULTS.json."""
 import glob, json, os, re, subprocess, sys, time
 V = os.path.dirname(os.path.dirname(os.path.abspath(__file__)))
-res_path = os.path.join(V, "mutants", "RESULTS.json")
+res_path = os.environ.get("MATRIX_OUT") or os.path.join(V, "mutants", "RESULTS.json")
+shard = os.environ.get("MATRIX_SHARD")  # "k/n": only every n-th item, starting at k
 res = json.load(open(res_path)) if os.path.exists(res_path) else {}
 only = sys.argv[1:]
 items = []
@@ -14,7 +15,9 @@ for pth in sorted(glob.glob(os.path.join(V, "mutants", "c*", "*.patch"))):
 for pth in sorted(glob.glob(os.path.join(V, "seeded", "*", "patch.diff"))):
     meta = json.load(open(os.path.join(os.path.dirname(pth), "meta.json")))
     items.append((meta["property"], pth))
-for pid, pth in items:
+for _i, (pid, pth) in enumerate(items):
+    if shard and _i % int(shard.split("/")[1]) != int(shard.split("/")[0]):
+        continue
     key = os.path.relpath(pth, V)
     if only and not any(o in key for o in only):
         continue
